@@ -46,6 +46,11 @@ class ConfirmCtx:
         """True if the crash in `case` is (or already was, for this key) reproduced."""
         if key in self.confirmed:
             return True
+        if len(self.confirmed) >= 3:
+            # three different crash classes were already reproduced in this run: this is a real crash storm, not a flaky
+            # child; further classes are accepted without spending a rebuild each
+            self.confirmed.add(key)
+            return True
         if self.tried.get(key, 0) >= 3 * self.attempts:
             return False
         variants = []
@@ -86,7 +91,7 @@ from vlib.diff import short
 
 
 def run_diff(ctx, mods, keyfn=e2.default_key, on_build_failure='violation', workdir=None, timeout=900, reach=None,
-             storm=5, stormkey=None, max_crash_reports=120):
+             storm=3, stormkey=None, max_crash_reports=60):
     workdir = workdir or ctx.workdir('e2')
     built, failures = e2.build_all(ctx, mods, workdir)
     stats = {'evaluations': 0, 'pairs': 0, 'programs': 0, 'modules_built': len(built), 'mismatches': 0,
@@ -194,7 +199,7 @@ def run_diff(ctx, mods, keyfn=e2.default_key, on_build_failure='violation', work
     pos = 0
     nwave = 0
     while pos < len(crashed_funcs):
-        wave = 64 if nwave < 2 else 1024
+        wave = 64 if nwave < 3 else 256
         nwave += 1
         chunk_items, pos = crashed_funcs[pos:pos + wave], pos + wave
         batch = []
